@@ -169,6 +169,19 @@ class TitanRequest(BaseRequest):
         if ";" not in line:
             raise ValueError("Titan URL must contain parameters (;size=...)")
 
+        # Whitespace and control characters have no place in a URL ("size= 5 ").
+        if any(ord(ch) <= 0x20 or ord(ch) == 0x7F for ch in line):
+            raise ValueError("Titan URL must not contain whitespace or control characters")
+
+        # A fragment is not allowed anywhere in the line, and neither is user-info.
+        # Both must be looked for before the line is cut at the first semicolon:
+        # "titan://user;x=1@host/f;size=5" would otherwise be read as host "user".
+        if "#" in line:
+            raise ValueError("Titan URL must not contain a fragment")
+        authority = line[8:].split("/", 1)[0].split("?", 1)[0]
+        if "@" in authority:
+            raise ValueError("Titan URL must not contain user-info")
+
         # Find the path end and params start
         # Format: titan://host/path;size=X;mime=Y;token=Z
         url_part, params_str = line.split(";", 1)
@@ -179,10 +192,15 @@ class TitanRequest(BaseRequest):
         if "size" not in params:
             raise ValueError("Titan URL must contain size parameter")
 
-        try:
-            size = int(params["size"])
-        except ValueError as e:
-            raise ValueError(f"Invalid size parameter: {params['size']}") from e
+        # The size is a plain run of ASCII digits; int() alone would also read
+        # "+5", "1_0", " 5 " or non-ASCII digits as numbers.
+        raw_size = params["size"]
+        digits = raw_size[1:] if raw_size.startswith("-") else raw_size
+        if not (digits.isascii() and digits.isdigit()):
+            raise ValueError(f"Invalid size parameter: {raw_size}")
+        if raw_size.startswith("-"):
+            raise ValueError(f"Size must be non-negative: {raw_size}")
+        size = int(raw_size)
 
         if size < 0:
             raise ValueError(f"Size must be non-negative: {size}")
